@@ -3,6 +3,7 @@
 //! drv <component> record --seed S --tier quick|thorough --out trace.ndjson
 mod util;
 mod dsu;
+mod reader;
 
 use util::arg_value;
 
@@ -21,6 +22,8 @@ fn main() {
     match (comp, mode) {
         ("dsu", "replay") => dsu::replay(&args[3], &out),
         ("dsu", "record") => dsu::record(seed, &tier, &out),
+        ("reader", "replay") => reader::replay(&args[3], &out),
+        ("reader", "record") => reader::record(seed, &tier, &out),
         _ => {
             eprintln!("unknown component/mode {} {}", comp, mode);
             std::process::exit(2);
